@@ -325,6 +325,13 @@ func (prop) Generate(rng *core.Rand, tier string, emit0 func(string)) {
 			emit(fmt.Sprintf("rs %s %s S:r:c4n;K;S:r:c5d;P:6n;K;S:r:c7n", e, fl))
 		}
 	}
+	// the CA on caddy's DEFAULT storage through the command line: the data directory is AppDataDir of
+	// the environment after the env files; the root must be the same in every process of a history
+	for _, e := range []string{"x-h1d-", "x-h1d0", "x-h-d-", "x0h1de", "x-h1"} {
+		for _, fl := range []string{".", "d=2", "h=3", "d=2/d=3", "x=2,d=2"} {
+			emit(fmt.Sprintf("rs %s %s S:-:1pk;K;S:r:2pk;P:3dk;P:3dk;K;S:-:4d;P:5pk;K;S:r:6nk", e, fl))
+		}
+	}
 	rrs := rng.Fork()
 	nRS := 12
 	if tier == "thorough" {
@@ -453,7 +460,7 @@ func (prop) Generate(rng *core.Rand, tier string, emit0 func(string)) {
 	// ---- malformed
 	bad := []string{"ca", "ca ", "ca x", "ca l", "ca l:", "ca l:0cb", "ca l:3xx", "ca m:-", "ca l:-;", "ca l:-;;l:-", "ca l:-3cb", "ca m", "ca m:", "ca m:0cb", "ca m:-:-", "ca d:xx", "ca c:rc", "ca c:rc>zz", "ca d:", "ca c:rc>rk>ik",
 		"as", "as L", "as L1", "as L1:d", "as L1:q:-", "as L1:d:K0", "as L1:d:X1", "as L1:dd:-", "as Lx:d:-", "as R;", "as L1:d:K1;L2:d:F1", "as U:", "as u", "as L1:d:-;UU",
-		"rs", "rs x-h1", "rs x-h1 .", "rs x-h1 . Q", "rs xzh1 . K", "rs x-h1 x=- K", "rs x-h1 x=2,x=3 K", "rs x-h1 . S:r:1px", "rs x-h1 . P:1q", "rs x-h1 . S:z:1p", "rs x-h1 . S:-:c1p", "rs x-h1 . S:-:c1nx", "rs x-h1 . P:c1d", "rs x-h1 . S:-:c", "fs", "fs l", "fs l:K0", "fs l:X1", "fs m:-", "fs l:-;", "fs l:3cb", "zz l:-", "ca l:- extra", "as L1:dff:-", "ca l:1cb:2", "as L1:d:-:3"}
+		"rs", "rs x-h1", "rs x-h1 .", "rs x-h1 . Q", "rs xzh1 . K", "rs x-h1 x=- K", "rs x-h1 x=2,x=3 K", "rs x-h1 . S:r:1px", "rs x-h1 . P:1q", "rs x-h1 . S:z:1p", "rs x-h1dz . K", "rs x-h1d . K", "rs x-h1 d=- K", "rs x-h1 . S:-:1pxk", "rs x-h1 . S:-:c1dk", "rs x-h1 . S:-:c1p", "rs x-h1 . S:-:c1nx", "rs x-h1 . P:c1d", "rs x-h1 . S:-:c", "fs", "fs l", "fs l:K0", "fs l:X1", "fs m:-", "fs l:-;", "fs l:3cb", "zz l:-", "ca l:- extra", "as L1:dff:-", "ca l:1cb:2", "as L1:d:-:3"}
 	for _, b := range bad {
 		emit(b)
 	}
